@@ -24,7 +24,7 @@ RULE = (
     "resolve_syntatic_sugar on the AST, through Select(string) and through Select(callable); datasets incl. empty "
     "collections. (b) generated @dataclass / NamedTuple classes with 1-4 fields and every split of the arguments into "
     "positional + keyword (any keyword order), exhaustively; (c) malformed uses: tuple targets, async for, unknown keyword, "
-    "surplus arguments, starred arguments. Non-trivial = (a) >=1 if clause or a nested comprehension or a name collision, with a non-empty "
+    "surplus arguments, starred arguments, a ** spread among the keywords, a keyword naming a field a positional argument already binds. Non-trivial = (a) >=1 if clause or a nested comprehension or a name collision, with a non-empty "
     "reference value; (b) >=2 fields with a mixed positional/keyword binding. Distinct by case text."
 )
 ASSUMPTIONS = [
@@ -94,7 +94,7 @@ def _dc_case(draw):
     fields = FIELDS[:n]
     npos = draw(st.integers(0, n))
     kw = draw(st.permutations(fields[npos:]))
-    bad = draw(st.sampled_from([None, None, None, None, None, None, "unknown", "surplus", "starred"]))
+    bad = draw(st.sampled_from([None, None, None, None, None, None, "unknown", "surplus", "starred", "spread", "twice"]))
     style = draw(st.sampled_from(["dataclass", "namedtuple"]))
     variant = draw(st.sampled_from([None, None, "init_false", "kw_only_first", "defaults", "defaults"])) if style == "dataclass" else None
     via = draw(st.sampled_from([None, None, "helper-twice", "called-lambda-twice"]))
@@ -266,6 +266,21 @@ def _dc_module(case):
         # the positional arguments handed over as one starred expression: nobody can say which fields they bind
         pos = ["*(" + ", ".join(pos + ["e.met"]) + ",)"] if pos else ["*(e.met,)"]
     kws = [f"{f}={ARGS[f]}" for f in case["kw"]]
+    if case["bad"] == "spread":
+        # one field handed over through a ** mapping: which field it binds is not written in the call
+        if kws:
+            f = case["kw"][-1]
+            kws[-1] = "**{%r: %s}" % (f, ARGS[f])
+        else:
+            kws = ["**e.m"] if not pos else ["**{%r: %s}" % (fields[len(pos) - 1], pos.pop())]
+    if case["bad"] == "twice":
+        # a keyword names a field a positional argument already binds (python: multiple values)
+        if not pos:
+            pos = [ARGS[fields[0]]]
+            kws = [k for k in kws if not k.startswith(fields[0] + "=")]
+        kws.insert(len(kws) if len(fields) % 2 else 0, f"{fields[0]}=7")
+        if len(pos) + len(kws) > len(fields) and len(kws) > 1:
+            kws.pop(0 if len(fields) % 2 else -1)  # keep the argument count within the field count
     if case["bad"] == "unknown":
         # the unknown keyword takes the place of one field, so that the argument count alone does not give it away
         if kws:
